@@ -15,7 +15,7 @@ func TestModelAgreement(t *testing.T) {
 	if s := os.Getenv("PROG_N"); s != "" {
 		n, _ = strconv.Atoi(s)
 	}
-	cfg := Cfg{Items: 3, MaxDepth: 3, Ifs: true, Ranges: true, Vars: true, Blocks: true, MultiFile: true, Includes: true, Try: true, Fails: true, Ctx: true, CondKinds: true, RangeErrs: true, IssetSwallow: true, IncludeIfExists: true, ExecNoReturn: true}
+	cfg := Cfg{Items: 3, MaxDepth: 3, Ifs: true, Ranges: true, Vars: true, Blocks: true, MultiFile: true, Includes: true, Try: true, Fails: true, Ctx: true, CondKinds: true, RangeErrs: true, IssetSwallow: true, IncludeIfExists: true, ExecNoReturn: true, PanicFuncs: true}
 	bad := 0
 	classes := map[string]int{}
 	unspec := 0
@@ -48,7 +48,7 @@ func TestFindSmall(t *testing.T) {
 	if os.Getenv("PROG_SMALL") == "" {
 		t.Skip()
 	}
-	cfg := Cfg{Items: 3, MaxDepth: 3, Ifs: true, Ranges: true, Vars: true, Blocks: true, MultiFile: true, Includes: true, Try: true, Fails: true, Ctx: true, CondKinds: true, RangeErrs: true, IssetSwallow: true, IncludeIfExists: true, ExecNoReturn: true}
+	cfg := Cfg{Items: 3, MaxDepth: 3, Ifs: true, Ranges: true, Vars: true, Blocks: true, MultiFile: true, Includes: true, Try: true, Fails: true, Ctx: true, CondKinds: true, RangeErrs: true, IssetSwallow: true, IncludeIfExists: true, ExecNoReturn: true, PanicFuncs: true}
 	best := map[string]string{}
 	for i := 0; i < 20000; i++ {
 		r := rand.New(rand.NewSource(int64(i)))
@@ -80,7 +80,7 @@ func TestSeed(t *testing.T) {
 		t.Skip()
 	}
 	seed, _ := strconv.Atoi(s)
-	cfg := Cfg{Items: 3, MaxDepth: 3, Ifs: true, Ranges: true, Vars: true, Blocks: true, MultiFile: true, Includes: true, Try: true, Fails: true, Ctx: true, CondKinds: true, RangeErrs: true, IssetSwallow: true, IncludeIfExists: true, ExecNoReturn: true}
+	cfg := Cfg{Items: 3, MaxDepth: 3, Ifs: true, Ranges: true, Vars: true, Blocks: true, MultiFile: true, Includes: true, Try: true, Fails: true, Ctx: true, CondKinds: true, RangeErrs: true, IssetSwallow: true, IncludeIfExists: true, ExecNoReturn: true, PanicFuncs: true}
 	p, _ := Gen(rand.New(rand.NewSource(int64(seed))), cfg)
 	set := p.NewSet(false, jet.WithSafeWriter(nil))
 	tt, err := set.GetTemplate(p.Main)
@@ -106,7 +106,7 @@ func TestEntriesAgreement(t *testing.T) {
 	if s := os.Getenv("PROG_N"); s != "" {
 		n, _ = strconv.Atoi(s)
 	}
-	cfg := Cfg{Items: 3, MaxDepth: 3, Ifs: true, Ranges: true, Vars: true, Blocks: true, MultiFile: true, Includes: true, Try: true, Fails: true, Ctx: true, CondKinds: true, RangeErrs: true, IssetSwallow: true, IncludeIfExists: true, ExecNoReturn: true}
+	cfg := Cfg{Items: 3, MaxDepth: 3, Ifs: true, Ranges: true, Vars: true, Blocks: true, MultiFile: true, Includes: true, Try: true, Fails: true, Ctx: true, CondKinds: true, RangeErrs: true, IssetSwallow: true, IncludeIfExists: true, ExecNoReturn: true, PanicFuncs: true}
 	bad, unspec, runs := 0, 0, 0
 	classes := map[string]int{}
 	for i := 0; i < n; i++ {
